@@ -207,31 +207,41 @@ def castFeatures (s : Disc) (x : Frame) : Except Err Frame :=
       | some col => pure (c.2.foldl (fun acc n => aset acc n col) acc)
       | none => throw Err.keyError) x
 
-def transform (s : Disc) (x0 : Frame) : Except Err Frame := do
-  let x ← s.castFeatures x0
-  let missing := s.features.filter (fun f => (colOf x f).isNone)
-  if !missing.isEmpty then throw (Err.assertion "columns are missing")
-  -- quantitative features first
-  let x1 ← s.quant.foldlM (fun (acc : Frame) f => do
-    match aget? s.orders f, aget? s.lpv f, colOf acc f with
-    | some g, some t, some c => pure (aset acc f (← transformQuantCol f g t s.strNan c))
-    | _, _, _ => throw Err.keyError) x
-  -- then qualitative ones: the unexpected-value assertion is raised for the first feature (in
-  -- `qualitative_features` order) that has one, after *all* defaults have been applied
-  let x2 ← s.qual.foldlM (fun (acc : Frame) f => do
-    match aget? s.orders f, aget? s.lpv f, colOf acc f with
-    | some g, some t, some c => pure (aset acc f (← transformQualCol f g t s.strNan s.strDefault c))
-    | _, _, _ => throw Err.keyError) x1
-  -- re-instating NaN where `features_dropna[f]` is False
-  s.featDropna.foldlM (fun (acc : Frame) fd => do
-    if fd.2 then pure acc else
-    match aget? s.lpv fd.1 with
-    | none => throw Err.keyError
-    | some t =>
-      match nanVal s.strNan with
-      | none => pure acc
-      | some n => match aget? t n, colOf acc fd.1 with
-        | some lab, some c => pure (aset acc fd.1 (c.map (fun cell => if cell = some lab then none else cell)))
-        | _, _ => pure acc) x2
+/-- one quantitative feature of `transform` -/
+def quantStep (s : Disc) (acc : Frame) (f : String) : Except Err Frame :=
+  match aget? s.orders f, aget? s.lpv f, colOf acc f with
+  | some g, some t, some c => (transformQuantCol f g t s.strNan c).map (fun col => aset acc f col)
+  | _, _, _ => .error Err.keyError
+
+/-- one qualitative feature of `transform` -/
+def qualStep (s : Disc) (acc : Frame) (f : String) : Except Err Frame :=
+  match aget? s.orders f, aget? s.lpv f, colOf acc f with
+  | some g, some t, some c => (transformQualCol f g t s.strNan s.strDefault c).map (fun col => aset acc f col)
+  | _, _, _ => .error Err.keyError
+
+/-- re-instating NaN for one feature where `features_dropna[f]` is False -/
+def nanStep (s : Disc) (acc : Frame) (fd : String × Bool) : Except Err Frame :=
+  if fd.2 then .ok acc else
+  match aget? s.lpv fd.1 with
+  | none => .error Err.keyError
+  | some t =>
+    match nanVal s.strNan with
+    | none => .ok acc
+    | some n => match aget? t n, colOf acc fd.1 with
+      | some lab, some c => .ok (aset acc fd.1 (c.map (fun cell => if cell = some lab then none else cell)))
+      | _, _ => .ok acc
+
+/-- `BaseDiscretizer.transform`: casting, column check, quantitative features first, then the
+    qualitative ones (the unexpected-value assertion is raised for the first feature, in
+    `qualitative_features` order, that has one, after *all* defaults have been applied), then NaN
+    re-instated where `features_dropna[f]` is False.  Columns that are not fitted features are
+    returned untouched. -/
+def transform (s : Disc) (x0 : Frame) : Except Err Frame :=
+  (s.castFeatures x0).bind fun x =>
+  if !(s.features.filter (fun f => (colOf x f).isNone)).isEmpty then .error (Err.assertion "columns are missing")
+  else
+    (s.quant.foldlM (quantStep s) x).bind fun x1 =>
+    (s.qual.foldlM (qualStep s) x1).bind fun x2 =>
+    s.featDropna.foldlM (nanStep s) x2
 
 end Disc
